@@ -662,7 +662,7 @@ static var Slice_Get(var self, var key) {
 
 static bool Slice_Mem(var self, var key) {
   var curr = Slice_Iter_Init(self);
-  while (curr) {
+  while (curr isnt Terminal) {
     if (eq(curr, key)) { return true; }
     curr = Slice_Iter_Next(self, curr);
   }
